@@ -90,6 +90,7 @@ type Step struct {
 	Mutation   *Mutation `json:"mutation,omitempty"`
 	Open       *OpenSpec `json:"open,omitempty"` // OPEN the scripted peer sends from now on (peer_auto / send_open)
 	Par        []Step    `json:"par,omitempty"`  // operations released together by a "par" step
+	IS         *ISStep   `json:"is,omitempty"`   // isissim: PDU description
 }
 
 // Mutation corrupts the encoded message of a step before it is delivered.
@@ -137,6 +138,7 @@ type Plan struct {
 	Cands   []CandSpec `json:"cands,omitempty"` // ribsim: candidate paths (C02, C04)
 	Noise   []CandSpec `json:"noise,omitempty"` // ribsim: paths added and removed again (C02)
 	BMPPeers []BMPPeer `json:"bmp_peers,omitempty"` // bmpsim: monitored sessions of the scripted router
+	ISIS    *ISISCfg  `json:"isis,omitempty"`      // isissim: interfaces and scripted neighbours
 }
 
 func (p *Plan) JSON() []byte {
